@@ -23,8 +23,10 @@ def make_atom(tag, adp_type):
 def make_sg(nsymop, rot=None):
     """rot: None for symbolic rotation parts, else explicit integer matrices (translations stay symbolic)"""
     R = sym_array("R", (nsymop, 3, 3)) if rot is None else Arr([[[Rat.const(x) for x in row] for row in m] for m in rot])
-    return Obj("mysg", nsymop=Rat.const(nsymop), rot=R, trans=sym_array("t", (nsymop, 3)),
-               nuniq=Rat.const(max(1, nsymop - 1)))
+    o = Obj("mysg", nsymop=Rat.const(nsymop), rot=R, trans=sym_array("t", (nsymop, 3)), nuniq=Rat.const(max(1, nsymop - 1)))
+    # the descriptive attributes of the real object (what a message may mention): texts of their own
+    o.attrs.update(name="SGNAME", no=Rat.atom("sg.no"), crystal_system="<crystal system>", Laue="<Laue class>", cell_choice="standard")
+    return o
 
 
 def evaluate(mod, atoms, nsymop, disper, rot=None):
